@@ -161,6 +161,10 @@ def as_symbool(x):
         return SymBool(bool(x))
     if isinstance(x, z3.BoolRef):
         return SymBool(x)
+    if isinstance(x, R):  # numeric truthiness
+        return x != 0
+    if _is_num(x):
+        return SymBool(bool(x != 0))
     raise Unsupported(f"cannot use {type(x)} as boolean")
 
 
